@@ -392,6 +392,18 @@ def t_cpp_regex(facts, res, tier):
         res.fail("T-CPP-REGEX:param-group", "src/cpp.rs", "no parameter capture-group template found")
 
 
+def walk_inl(facts, fn, depth=2):
+    """Nodes of fn's body, plus the bodies of argument-less helper methods of the same impl it calls on self
+    (so that extracting a helper is not mistaken for removing the code)."""
+    for n in walk(fn["body"]):
+        yield n
+        if depth > 0 and n.get("k") == "mcall" and n["recv"].get("k") == "path" and n["recv"]["segs"] == ["self"] and not n["args"]:
+            for h in facts.fns_named(n["method"]):
+                if h["qual"] == fn["qual"] and h is not fn:
+                    for m in walk_inl(facts, h, depth - 1):
+                        yield m
+
+
 @rule("T-CPP-PARALLEL", floor=6,
       text="define, define_ex and undefine keep the four parallel macro tables (defs_ex, defs_ex_ex, regexes, regex_sets) in step: the same chunk and index are used for every table, the 100-entry roll-over appends a chunk to all four, and undefine rebuilds the regex set of the chunk it edited")
 def t_cpp_parallel(facts, res, tier):
@@ -399,7 +411,7 @@ def t_cpp_parallel(facts, res, tier):
     for fname in ("define", "define_ex"):
         fn = facts.fn(fname, "Context")
         pushes = {}
-        for n in walk(fn["body"]):
+        for n in walk_inl(facts, fn):
             if n.get("k") == "mcall" and n["method"] == "push":
                 rt = expr_text(n["recv"])
                 m = re.match(r"^self\.(\w+)(\.last_mut\(\)\.unwrap\(\))?$", rt)
@@ -414,14 +426,14 @@ def t_cpp_parallel(facts, res, tier):
         # regex set of the last chunk rebuilt from defs_ex_ex.last()
         key = "T-CPP-PARALLEL:%s:regex_set-rebuild" % fname
         res.inst(key)
-        ok = any(n.get("k") == "assign" and "regex_sets.last_mut()" in expr_text(n["l"]) and "RegexSet::new(self.defs_ex_ex.last().unwrap())" in expr_text(n["r"]) for n in walk(fn["body"]))
+        ok = any(n.get("k") == "assign" and "regex_sets.last_mut()" in expr_text(n["l"]) and "RegexSet::new(self.defs_ex_ex.last().unwrap())" in expr_text(n["r"]) for n in walk_inl(facts, fn))
         if not ok:
             res.fail(key, facts.where(fn), "%s does not rebuild the last chunk's RegexSet from defs_ex_ex" % fname)
         # roll-over: all four pushed under one condition
         key = "T-CPP-PARALLEL:%s:rollover" % fname
         res.inst(key)
         ok = False
-        for n in walk(fn["body"]):
+        for n in walk_inl(facts, fn):
             if n.get("k") == "if" and "len()" in expr_text(n["cond"]):
                 t = expr_text(n["then"])
                 if all(("self.%s.push(" % x) in t for x in tables + ["regex_sets"]):
@@ -431,11 +443,11 @@ def t_cpp_parallel(facts, res, tier):
         # defs (the BTreeMap used by get_macro/#ifdef) updated too
         key = "T-CPP-PARALLEL:%s:defs" % fname
         res.inst(key)
-        if not any(n.get("k") == "mcall" and n["method"] == "insert" and expr_text(n["recv"]) == "self.defs" for n in walk(fn["body"])):
+        if not any(n.get("k") == "mcall" and n["method"] == "insert" and expr_text(n["recv"]) == "self.defs" for n in walk_inl(facts, fn)):
             res.fail(key, facts.where(fn), "%s does not record the macro in `defs` (used by #ifdef/#ifndef and redefinition checks)" % fname)
     fn = facts.fn("undefine", "Context")
     removes = {}
-    for n in walk(fn["body"]):
+    for n in walk_inl(facts, fn):
         if n.get("k") == "mcall" and n["method"] == "remove":
             rt = expr_text(n["recv"])
             m = re.match(r"^self\.(\w+)\[(\w+)\]$", rt)
@@ -461,7 +473,7 @@ def t_cpp_parallel(facts, res, tier):
     res.inst(key)
     if idx:
         chunk = next(iter(idx))[0]
-        ok = any(n.get("k") == "assign" and expr_text(n["l"]) == "self.regex_sets[%s]" % chunk and ("RegexSet::new(self.defs_ex_ex[%s])" % chunk) in expr_text(n["r"]) for n in walk(fn["body"]))
+        ok = any(n.get("k") == "assign" and expr_text(n["l"]) == "self.regex_sets[%s]" % chunk and ("RegexSet::new(self.defs_ex_ex[%s])" % chunk) in expr_text(n["r"]) for n in walk_inl(facts, fn))
         if not ok:
             res.fail(key, facts.where(fn), "undefine does not rebuild the RegexSet of the chunk it edited")
     # replace_all pairs set i with regexes[i]
@@ -533,8 +545,15 @@ def t_linemap(facts, res, tier):
                 txt = expr_text(e["node"]["args"][0]) if e["node"].get("args") else ""
                 is_newline_completion = txt in ('b"\\n"', '"\\n".as_bytes()') or (isinstance(a, Const) and a.v == "\n")
                 if not is_newline_completion:
-                    writes.append(e)
-                    seq.append("W")
+                    # a constant/format template may hold several lines: one map entry is needed per line
+                    nl = 1
+                    if isinstance(a, Const) and isinstance(a.v, str):
+                        nl = max(1, a.v.count("\n"))
+                    elif isinstance(a, Fmt):
+                        nl = max(1, a.template.count("\n"))
+                    for _ in range(nl):
+                        writes.append(e)
+                    seq.append("W" * nl)
             elif e["what"] == "lines.push":
                 pushes += 1
                 seq.append("P")
@@ -552,7 +571,7 @@ def t_linemap(facts, res, tier):
         if len(writes) != pushes:
             res.fail(key, facts.where(fn, (writes or evs)[0]["node"]), "on a %s path %d lines are written but %d map entries are pushed" % (p["directive"], len(writes), pushes))
         # each W must be adjacent to its P (no interleaving W W P P beyond pairs)
-        s = "".join(c for c in seq if c in "WP")
+        s = "".join(c for c in "".join(seq) if c in "WP")
         if s.replace("PW", "").replace("WP", "") != "":
             res.fail(key, facts.where(fn, evs[0]["node"]), "writes and map pushes are not pairwise adjacent: %s" % s)
         if "R" in seq and seq[seq.index("R") + 1: seq.index("R") + 2] != ["A"]:
@@ -655,3 +674,34 @@ def t_loc_siblings(facts, res, tier):
                 f = {x["name"]: expr_text(x["e"]) for x in lit["fields"]}
                 if not f.get("line", "").endswith("].1") or not f.get("filename", "").endswith("].0.to_string()"):
                     res.fail(key, facts.where(fn, lit), "%s builds its error from the wrong map fields: line=%s filename=%s" % (fn["name"], f.get("line"), f.get("filename")))
+
+
+@rule("T-CPP-SCAN-SIBLINGS", floor=2,
+      text="the two branches of process() that keep the text before a comment (the string-aware branch and the #include/assembler branch) treat it identically - append it, suppress the line only when everything kept so far is empty, then enter the block comment or stop - and the suppression test looks at the whole accumulated line, not at the fragment just scanned")
+def t_cpp_scan_siblings(facts, res, tier):
+    fn = facts.fn("process", "")
+    sibs = []
+    for b in walk(fn["body"]):
+        if b.get("k") != "block" or not b["stmts"]:
+            continue
+        last = b["stmts"][-1]
+        if last.get("k") == "match" and expr_text(last["e"]).endswith(".next()") and "in_multiline_comments=true" in expr_text(last):
+            sibs.append((b, last, [expr_text(x) for x in b["stmts"]]))
+    res.inst("T-CPP-SCAN-SIBLINGS:count", True, {"branches": len(sibs)})
+    if len(sibs) < 2:
+        raise AnchorMissing("process(): the sibling 'keep text before comment, then enter the block comment' branches were not found (%d)" % len(sibs))
+    base = sibs[-1][2]
+    for i, (b, last, txt) in enumerate(sibs):
+        key = "T-CPP-SCAN-SIBLINGS:branch%d" % i
+        res.inst(key, True, {"statements": txt})
+        if txt != base:
+            res.fail(key, facts.where(fn, b["stmts"][0]), "the branches that keep the text before a comment differ: `%s` vs `%s`" % ("; ".join(txt[:-1])[:160], "; ".join(base[:-1])[:160]))
+        pushes = [x for x in walk(b) if x.get("k") == "mcall" and x["method"] == "push_str" and x["recv"].get("k") == "path"]
+        if not pushes:
+            res.fail(key + ":append", facts.where(fn, b["stmts"][0]), "the text before the comment is not appended to the line buffer")
+            continue
+        buf = expr_text(pushes[0]["recv"])
+        for x in walk(b):
+            if x.get("k") == "if" and "is_empty()" in expr_text(x["cond"]) and "insert_it=false" in expr_text(x).replace(" ", ""):
+                if expr_text(x["cond"]) != "%s.is_empty()" % buf:
+                    res.fail(key + ":whole-line", facts.where(fn, x), "a line is suppressed when `%s`, but what decides whether the line carries text is the accumulated buffer `%s`: code before a comment on the same line would be dropped" % (expr_text(x["cond"]), buf))
